@@ -129,7 +129,59 @@ var decodeCases = []decodeCase{
 	}},
 }
 
+// decodeStringPriors runs DecodeString with prior target values derived from the input itself
+// (the property quantifies over every prior content of the target): the raw token text, its
+// prefixes up to each quote / backslash, and the decoded value.
+func decodeStringPriors(w []byte) (string, string, string) {
+	rv, rp, rerr := rjson.ReadString(w, nil)
+	np, isNull := ref.Literal(w, "null")
+	i := 0
+	for i < len(w) && ref.IsWS(w[i]) {
+		i++
+	}
+	priors := []string{rv, rv + "x", string(w), string(w[i:])}
+	if i < len(w) && w[i] == '"' {
+		body := w[i+1:]
+		priors = append(priors, string(body))
+		for j, c := range body {
+			if c == '"' || c == '\\' {
+				priors = append(priors, string(body[:j]), string(body[:j+1]))
+			}
+		}
+	}
+	for _, prior := range priors {
+		for _, withBuf := range []bool{false, true} {
+			t := prior
+			var buf *[]byte
+			if withBuf {
+				b := []byte(prior)
+				buf = &b
+			}
+			dp, derr := rjson.DecodeString(w, &t, buf)
+			tag := fmt.Sprintf("DecodeString/prior=%q/buf=%v", prior, withBuf)
+			switch {
+			case rerr == nil:
+				if derr != nil || dp != rp || t != rv {
+					return tag + "/reader-ok", fmt.Sprintf("p=%d nil target=%q", rp, rv), fmt.Sprintf("p=%d %s target=%q", dp, errStr(derr), t)
+				}
+			case isNull:
+				if derr != nil || dp != np || t != prior {
+					return tag + "/null", fmt.Sprintf("p=%d nil target unchanged", np), fmt.Sprintf("p=%d %s target=%q", dp, errStr(derr), t)
+				}
+			default:
+				if derr == nil || t != prior {
+					return tag + "/error", "error, target unchanged", fmt.Sprintf("p=%d %s target=%q", dp, errStr(derr), t)
+				}
+			}
+		}
+	}
+	return "", "", ""
+}
+
 func checkDecode(w []byte, _ *ref.PDA) (string, bool, string, string) {
+	if b, e, g := decodeStringPriors(w); b != "" {
+		return b, false, e, g
+	}
 	np, isNull := ref.Literal(w, "null")
 	for _, dc := range decodeCases {
 		for _, sentinel := range []bool{false, true} {
